@@ -1,5 +1,6 @@
 import Gv.Sexp
 import Gv.Driver.Comments
+import Gv.Driver.Settings
 
 open Gv Gv.Sexp Gv.Driver
 
@@ -10,6 +11,8 @@ def dispatch (req : Sexp) : Sexp :=
   | some "slines" => handleSLines req
   | some "command" => handleCommand req
   | some "localctx" => handleLocalCtx req
+  | some "resolve" => handleResolve req
+  | some "path" => handlePath req
   | _ => mkList "err" [.atom "unknown-request"]
 
 partial def loop (hin hout : IO.FS.Stream) : IO Unit := do
